@@ -217,96 +217,12 @@ pub mod dl {
             assert!(o.bad_unmap == 0, "nothing is unmapped that was not mapped");
         }
 
-        macro_rules! memalign_harness {
-            ($name:ident, $align:expr) => {
-                #[kani::proof]
-                #[kani::unwind(35)]
-                pub fn $name() {
-                    let mut mem = Mem::uninit();
-                    setup(false, &mut mem);
-                    let mut a = Dlmalloc::new();
-                    let size: usize = kani::any();
-                    kani::assume(size >= 1 && size <= 4096);
-                    let p = unsafe { a.malloc(size, $align) } as usize;
-                    kani::cover!(size == 4096 && p != 0, "largest size");
-                    assert!(p != 0, "an aligned request that fits the fresh heap succeeds");
-                    assert!(p % $align == 0, "aligned as requested");
-                    assert!(in_arena(p, size), "inside memory obtained from the OS");
-                    assert!(os().bad_unmap == 0);
-                }
-            };
-        }
-        // @ob C03 quick single_memalign_32 mod=dl::harness fns=Dlmalloc::malloc,Dlmalloc::memalign,Dlmalloc::dispose_chunk bound="fresh heap; size 1..=4096 symbolic; alignment 32" timeout=1500
-        memalign_harness!(single_memalign_32, 32);
-        // @ob C03 quick single_memalign_256 mod=dl::harness fns=Dlmalloc::malloc,Dlmalloc::memalign,Dlmalloc::dispose_chunk bound="fresh heap; size 1..=4096 symbolic; alignment 256" timeout=1500
-        memalign_harness!(single_memalign_256, 256);
-        // @ob C03 quick single_memalign_8192 mod=dl::harness fns=Dlmalloc::malloc,Dlmalloc::memalign,Dlmalloc::dispose_chunk bound="fresh heap; size 1..=4096 symbolic; alignment 8192" timeout=1500
-        memalign_harness!(single_memalign_8192, 8192);
+        // memalign (one call, symbolic size, alignment 32 / 256 / 8192 concrete) was built and measured: 20-25 min, 24 GB
+        // exhausted or no verdict - its trimming of leader/trailer goes through dispose_chunk (the free logic). Removed.
 
-        // @ob C03 quick single_calloc_zeroed mod=dl::harness fns=Dlmalloc::calloc,Dlmalloc::calloc_must_clear bound="fresh heap over uninitialised (= arbitrary, 'dirty') memory; sizes 1, 24, 100 (listed); every byte checked" timeout=1500 nocover=1
-        #[kani::proof]
-        #[kani::unwind(102)]
-        pub fn single_calloc_zeroed() {
-            let mut mem = Mem::uninit();
-            setup(false, &mut mem);
-            let mut a = Dlmalloc::new();
-            unsafe {
-                let p1 = a.calloc(1, 1);
-                let p2 = a.calloc(24, 8);
-                let p3 = a.calloc(100, 16);
-                assert!(!p1.is_null() && !p2.is_null() && !p3.is_null());
-                assert!(*p1 == 0);
-                let mut i = 0;
-                while i < 24 {
-                    assert!(*p2.add(i) == 0, "allocate-zeroed returns zeros");
-                    i += 1;
-                }
-                let mut j = 0;
-                while j < 100 {
-                    assert!(*p3.add(j) == 0, "allocate-zeroed returns zeros");
-                    j += 1;
-                }
-            }
-        }
-
-        // ---------------------------------------------------------------- (2b) two symbolic operations in a row
-        fn disjoint(a: usize, an: usize, b: usize, bn: usize) -> bool {
-            a + an <= b || b + bn <= a
-        }
-
-        macro_rules! second_malloc {
-            ($name:ident, $first:expr) => {
-                #[kani::proof]
-                #[kani::unwind(35)]
-                pub fn $name() {
-                    let mut mem = Mem::uninit();
-                    setup(false, &mut mem);
-                    let mut a = Dlmalloc::new();
-                    let s2: usize = kani::any();
-                    kani::assume(s2 <= 70000);
-                    unsafe {
-                        let p1 = a.malloc($first, 8);
-                        assert!(!p1.is_null());
-                        let refused1 = os().refused;
-                        let p2 = a.malloc(s2, 16);
-                        kani::cover!(!p2.is_null() && os().mmaps == 2 && os().refused == 0, "the second block needed a second mapping");
-                        kani::cover!(!p2.is_null() && os().mmaps == 1, "both blocks from the first mapping");
-                        assert!(p1 as usize % 16 == 0 && in_arena(p1 as usize, $first));
-                        if !p2.is_null() {
-                            assert!(p2 as usize % 16 == 0 && in_arena(p2 as usize, s2));
-                            assert!(disjoint(p1 as usize, $first, p2 as usize, s2), "live blocks do not overlap");
-                        } else {
-                            assert!(os().refused > refused1, "null only when the OS refused");
-                        }
-                        assert!(os().bad_unmap == 0);
-                    }
-                }
-            };
-        }
-        // @ob C03 quick second_malloc_after_small mod=dl::harness fns=Dlmalloc::malloc,Dlmalloc::inner_malloc,Dlmalloc::sys_alloc,Dlmalloc::add_segment bound="fresh heap; malloc(24) then one allocation of any size 0..=70000 (from top, or a second mapping)" timeout=1800
-        second_malloc!(second_malloc_after_small, 24);
-        // @ob C03 quick second_malloc_after_large mod=dl::harness fns=Dlmalloc::malloc,Dlmalloc::inner_malloc,Dlmalloc::sys_alloc,Dlmalloc::add_segment bound="fresh heap; malloc(60000) then one allocation of any size 0..=70000 (rest of the first mapping, or a second mapping)" timeout=1800
-        second_malloc!(second_malloc_after_large, 60000);
+        // calloc: even ONE calloc of a listed size with every byte checked has symbolic execution of 1 s but no SAT verdict in
+        // 15 min (the 128 KiB of uninitialised arena memory as one nondeterministic array, written by write_bytes and read back).
+        // A second malloc of symbolic size after a listed first one: no verdict in 30 min (both variants). Removed.
 
         // (3) Scripted multi-operation histories were built and measured, then removed: already a listed, fully concrete
         // script of 5 operations (malloc, malloc, free, malloc, malloc) needs 10 min of symbolic execution, 8 million steps and
